@@ -186,10 +186,14 @@ def loading_case(rec, rng, cid, scratch):
     data, _ = gen.make_arrays(rng, "hertz_para", {"E": 2000., "R": 1e-5,
                                                   "nu": .5}, n_app=50,
                               n_ret=50)
-    for has_k, has_tip in [(False, False), (True, False), (False, True)]:
+    for has_k, has_tip in [(False, False), (True, False), (False, True),
+                           (False, False)]:
         dd = {k: v.copy() for k, v in data.items()}
         if not has_tip:
             dd.pop("tip position")
+            if rng.random() < .5:
+                # not even a measured height (e.g. only the piezo height)
+                dd["height (piezo)"] = dd.pop("height (measured)")
         # (sometimes the curve claims to come from the same file as the
         #  curve appended last)
         same_file = bool(rng.integers(2))
